@@ -280,16 +280,56 @@ template <typename T> inline typename std::enable_if<IsFlt<T>::value, Lim>::type
 template <typename T> inline typename std::enable_if<std::is_class<T>::value, Lim>::type mk_lim(bool, bool) { Lim l; l.bounded = false; return l; }
 template <typename N> inline const Lim& lim() { typedef typename Kind<N>::TP P; static Lim l = mk_lim<typename Kind<N>::raw_t>(P::has_nan, P::has_infinity); return l; }
 
-// is the undefined input class u inside the contract of destination policy P ?
-template <typename P, typename T> inline bool in_contract(Undef u) {
-  switch (u) {
-  case U_NONE: return true;
-  case U_SILENT: return false;
-  case U_NAN_OPERAND: return IsFlt<T>::value ? (bool) P::check_fpu_nan_result : (bool) P::has_nan;
-  case U_INF_ADD_INF: return P::check_inf_add_inf; case U_INF_SUB_INF: return P::check_inf_sub_inf; case U_INF_MUL_ZERO: return P::check_inf_mul_zero;
-  case U_DIV_ZERO: case U_MOD_ZERO: return P::check_div_zero; case U_INF_DIV_INF: return P::check_inf_div_inf; case U_INF_MOD: return P::check_inf_mod; case U_SQRT_NEG: return P::check_sqrt_neg;
+// ---------------------------------------------------------------- run-time description of a number kind
+// (everything the non-template cores in numkernel.cc need to know about N)
+template <typename T> inline typename std::enable_if<IsInt<T>::value, bool>::type repr_T(const Q& q, const Lim& L) { return q.get_den() == 1 && q >= L.lo && q <= L.hi; }
+template <typename T> struct FltFmt;
+template <> struct FltFmt<float> { enum { P = 24, EMIN = -149, EMAX = 128 }; };
+template <> struct FltFmt<double> { enum { P = 53, EMIN = -1074, EMAX = 1024 }; };
+template <> struct FltFmt<long double> { enum { P = 64, EMIN = -16445, EMAX = 16384 }; };
+template <typename T> inline typename std::enable_if<IsFlt<T>::value, bool>::type repr_T(const Q& q, const Lim&) {
+  if (::sgn(q) == 0) return true;
+  const Z& d = q.get_den(); if (mpz_popcount(d.get_mpz_t()) != 1) return false;
+  Z n = abs(q.get_num()); long tz = (long) mpz_scan1(n.get_mpz_t(), 0); long e = tz - (long) (mpz_sizeinbase(d.get_mpz_t(), 2) - 1);
+  long bl = (long) mpz_sizeinbase(n.get_mpz_t(), 2) - tz;   // bits of the odd part
+  return bl <= FltFmt<T>::P && e >= FltFmt<T>::EMIN && bl + e <= FltFmt<T>::EMAX;
+}
+template <typename T> inline typename std::enable_if<std::is_same<T, Z>::value, bool>::type repr_T(const Q& q, const Lim&) { return q.get_den() == 1; }
+template <typename T> inline typename std::enable_if<std::is_same<T, Q>::value, bool>::type repr_T(const Q&, const Lim&) { return true; }
+
+struct KindInfo {
+  const char* tname; const char* pol; Lim lim;
+  bool is_int, is_flt, is_mpz, is_mpq, is_signed; int bits;
+  bool has_nan, has_inf, check_overflow, c_inf_add_inf, c_inf_sub_inf, c_inf_mul_zero, c_div_zero, c_inf_div_inf, c_inf_mod, c_sqrt_neg, c_fpu_inexact, c_fpu_nan;
+  bool (*repr)(const Q&, const Lim&);
+  XQ (*dec_at)(const void* vec, size_t i);   // vec is a const std::vector<N>*
+  size_t (*size)(const void* vec);
+  std::string kname() const { return std::string(tname) + "/" + pol; }
+  bool representable(const XQ& e) const { return e.fin() && !e.root && repr(e.q, lim); }
+  // is the undefined input class u inside the contract of this destination policy ?
+  bool in_contract(Undef u) const {
+    switch (u) {
+    case U_NONE: return true;
+    case U_SILENT: return false;
+    case U_NAN_OPERAND: return is_flt ? c_fpu_nan : has_nan;
+    case U_INF_ADD_INF: return c_inf_add_inf; case U_INF_SUB_INF: return c_inf_sub_inf; case U_INF_MUL_ZERO: return c_inf_mul_zero;
+    case U_DIV_ZERO: case U_MOD_ZERO: return c_div_zero; case U_INF_DIV_INF: return c_inf_div_inf; case U_INF_MOD: return c_inf_mod; case U_SQRT_NEG: return c_sqrt_neg;
+    }
+    return false;
   }
-  return false;
+};
+template <typename N> struct VecThunk {
+  static XQ dec_at(const void* v, size_t i) { return dec((*static_cast<const std::vector<N>*>(v))[i]); }
+  static size_t size(const void* v) { return static_cast<const std::vector<N>*>(v)->size(); }
+  static const N& at(const void* v, size_t i) { return (*static_cast<const std::vector<N>*>(v))[i]; }
+};
+template <typename N> inline const KindInfo& kinfo() {
+  typedef typename Kind<N>::TP P; typedef typename Kind<N>::raw_t T;
+  static KindInfo k = { tname<N>(), Kind<N>::pol(), lim<N>(),
+    IsInt<T>::value, IsFlt<T>::value, std::is_same<T, Z>::value, std::is_same<T, Q>::value, std::is_signed<T>::value, std::is_class<T>::value ? 0 : (int) (sizeof(T) * 8),
+    P::has_nan, P::has_infinity, P::check_overflow, P::check_inf_add_inf, P::check_inf_sub_inf, P::check_inf_mul_zero, P::check_div_zero, P::check_inf_div_inf, P::check_inf_mod, P::check_sqrt_neg,
+    P::check_fpu_inexact, P::check_fpu_nan_result, &repr_T<T>, &VecThunk<N>::dec_at, &VecThunk<N>::size };
+  return k;
 }
 
 // ---------------------------------------------------------------- rounding directions under test
@@ -300,60 +340,10 @@ static const DirInfo DIRS[] = {
   { ROUND_NOT_NEEDED, "NOT_NEEDED" } };
 static const int NDIRS = 5;          // ROUND_NOT_NEEDED (index 5) only where the result is exact and representable
 inline const char* dir_name(Rounding_Dir d) { for (int i = 0; i < 6; ++i) if (DIRS[i].d == d) return DIRS[i].name; return "?"; }
-
-inline std::string result_name(Result r) {
-  std::string s; unsigned u = (unsigned) r; Result_Class c = result_class(r); Result_Relation rel = result_relation(r);
-  static const char* const RN[8] = { "EMPTY", "EQ", "LT", "LE", "GT", "GE", "NE", "LGE" };
-  // bit order: EQ=1, LT=2, GT=4
-  static const char* const RB[8] = { "V_EMPTY", "V_EQ", "V_LT", "V_LE", "V_GT", "V_GE", "V_NE", "V_LGE" };
-  (void) RN;
-  if (c == VC_NAN) {
-    switch (r - V_UNREPRESENTABLE) { case V_NAN: s = "V_NAN"; break; case V_CVT_STR_UNK: s = "V_CVT_STR_UNK"; break; case V_DIV_ZERO: s = "V_DIV_ZERO"; break; case V_INF_ADD_INF: s = "V_INF_ADD_INF"; break;
-      case V_INF_DIV_INF: s = "V_INF_DIV_INF"; break; case V_INF_MOD: s = "V_INF_MOD"; break; case V_INF_MUL_ZERO: s = "V_INF_MUL_ZERO"; break; case V_INF_SUB_INF: s = "V_INF_SUB_INF"; break;
-      case V_MOD_ZERO: s = "V_MOD_ZERO"; break; case V_SQRT_NEG: s = "V_SQRT_NEG"; break; case V_UNKNOWN_NEG_OVERFLOW: s = "V_UNKNOWN_NEG_OVERFLOW"; break; case V_UNKNOWN_POS_OVERFLOW: s = "V_UNKNOWN_POS_OVERFLOW"; break;
-      default: { char b[32]; snprintf(b, sizeof b, "NAN?0x%x", u); s = b; } }
-  }
-  else {
-    s = RB[(unsigned) rel & 7];
-    if (c == VC_MINUS_INFINITY) s += "_MINUS_INFINITY"; else if (c == VC_PLUS_INFINITY) s += "_PLUS_INFINITY";
-    if (u & (unsigned) V_OVERFLOW) s += "|OVERFLOW";
-  }
-  if (u & (unsigned) V_UNREPRESENTABLE) s += "|UNREPRESENTABLE";
-  return s;
-}
-
-// ---------------------------------------------------------------- bookkeeping
-struct Site { const char* op; std::string type; const char* pol; };
-inline void reg_distinct(const Site& s, const char* dirn, const char* cls, Result r) {
-  // non-trivial configuration = (operation, type, policy, direction, triage class of the operands/exact result, result code);
-  // registered once per engine process, hashed by hx.
-  static std::unordered_set<uint64_t> seen;
-  uint64_t h = hx::fnv(s.op); h = hx::splitmix(h ^ hx::fnv(s.type)); h = hx::splitmix(h ^ hx::fnv(s.pol)); h = hx::splitmix(h ^ hx::fnv(dirn)); h = hx::splitmix(h ^ hx::fnv(cls)); h = hx::splitmix(h ^ (uint64_t) r);
-  if (seen.insert(h).second) hx::distinct(std::string(s.op) + "|" + s.type + "|" + s.pol + "|" + dirn + "|" + cls + "|" + result_name(r));
-}
+std::string result_name(Result r);
 inline bool g_verbose() { return hx::opt().verbose; }
+const char* intern(const std::string& s);
 
-// Run f in a forked child; false (and `why`) if the child died (sanitizer report, signal).  Used for inputs
-// that were seen to trigger undefined behaviour inside PPL, so that the engine survives and can key the report.
-template <typename F> inline bool survives(F f, std::string& why) {
-  int pfd[2]; if (pipe(pfd) != 0) return true;
-  fflush(0);
-  pid_t pid = fork();
-  if (pid < 0) { close(pfd[0]); close(pfd[1]); return true; }
-  if (pid == 0) { close(pfd[0]); dup2(pfd[1], 2); close(pfd[1]); f(); _exit(0); }
-  close(pfd[1]); std::string err; char buf[512]; ssize_t n;
-  while ((n = read(pfd[0], buf, sizeof buf)) > 0) if (err.size() < 8192) err.append(buf, (size_t) n);
-  close(pfd[0]); int st = 0; waitpid(pid, &st, 0);
-  hx::count("fork_probes");
-  if (WIFEXITED(st) && WEXITSTATUS(st) == 0) return true;
-  size_t p = err.find("runtime error:"); if (p == std::string::npos) p = err.find("ERROR: AddressSanitizer"); if (p == std::string::npos) p = 0;
-  size_t b = err.rfind('\n', p); b = (b == std::string::npos) ? 0 : b + 1; size_t e = err.find('\n', p); why = err.substr(b, (e == std::string::npos ? err.size() : e) - b);
-  if (why.size() > 300) why.resize(300);
-  if (WIFSIGNALED(st)) why += " [signal " + std::to_string(WTERMSIG(st)) + "]";
-  return false;
-}
-
-// ---------------------------------------------------------------- the oracle
 // Operand text, built lazily (only when a violation is reported or in verbose mode).
 struct Desc {
   const XQ* a; const XQ* b; const XQ* t; long e; const char* txt;
@@ -368,85 +358,32 @@ inline Desc desc3(const XQ& t, const XQ& a, const XQ& b) { Desc d; d.t = &t; d.a
 inline Desc desce(const XQ& a, unsigned e) { Desc d; d.a = &a; d.e = e; return d; }
 inline Desc desct(const char* t) { Desc d; d.txt = t; return d; }
 
-// Returns false if a violation was reported.
-template <typename N>
-bool verify(const Site& s, Rounding_Dir dir, const char* cls, Result r, const N& to, const Ex& ex, const Desc& desc) {
-  typedef typename Kind<N>::TP P; typedef typename Kind<N>::raw_t T;
-  hx::checked();
-  const Lim& L = lim<N>();
-  Result_Class rc = result_class(r); Result_Relation rel = result_relation(r);
-  bool unrep = !result_representable(r);
-  const char* dn = dir_name(dir);
-  static unsigned long& c_nan = hx::st().counters["ok.nan"]; static unsigned long& c_unk = hx::st().counters["ok.unknown_overflow"]; static unsigned long& c_unrep = hx::st().counters["ok.unrepresentable"];
-  static unsigned long& c_ovf = hx::st().counters["ok.overflow"]; static unsigned long& c_exact = hx::st().counters["ok.exact"]; static unsigned long& c_inexact = hx::st().counters["ok.inexact"];
-#define NK_FAIL(MON, WHAT) do { XQ st_ = unrep ? XQ() : dec(to); hx::violation(std::string("C11.") + MON + "." + s.op + "." + s.type + ":" + cls, \
-    std::string(WHAT) + ": " + s.op + "<" + s.type + "/" + s.pol + ">(" + desc() + ", ROUND_" + dn + ") returned " + result_name(r) + " stored=" + (unrep ? "(unrepresentable)" : show(st_)) + " exact=" + (ex.u ? UNDEF_NAME[ex.u] : show(ex.v)) \
-    + (ex.has_prod ? " product=" + show(ex.prod) : "") + (L.bounded ? " range=[" + L.lo.get_str() + "," + L.hi.get_str() + "]" : "")); return false; } while (0)
-  reg_distinct(s, dn, cls, r);
-  // --- undefined input
-  if (ex.u != U_NONE) {
-    if (rc != VC_NAN) NK_FAIL("nan", "undefined-not-nan");
-    if (r == V_UNKNOWN_NEG_OVERFLOW || r == V_UNKNOWN_POS_OVERFLOW) NK_FAIL("nan", "undefined-reported-as-overflow");
-    if (!unrep && P::has_nan && !dec(to).nan()) NK_FAIL("nan", "nan-result-but-stored-not-nan");
-    ++c_nan;
-    return true;
-  }
-  // --- defined input
-  if (rc == VC_NAN) {
-    if (r == V_UNKNOWN_NEG_OVERFLOW || r == V_UNKNOWN_POS_OVERFLOW) {
-      if (!ex.has_prod || !L.bounded) NK_FAIL("ovf", "unknown-overflow-without-intermediate");
-      bool neg = xcmp(ex.prod, L.lo) < 0, pos = xcmp(ex.prod, L.hi) > 0;
-      if ((r == V_UNKNOWN_NEG_OVERFLOW && !neg) || (r == V_UNKNOWN_POS_OVERFLOW && !pos)) NK_FAIL("ovf", "unknown-overflow-claim-false");
-      ++c_unk;
-      return true;
-    }
-    NK_FAIL("nan", "nan-on-defined");
-  }
-  int true_rel;   // relation  exact REL stored  as a Result_Relation bit
-  if (unrep) {
-    // nothing stored: the class must be an infinity and say on which side the exact result left the range
-    if (rc == VC_MINUS_INFINITY) { int c = ex.v.k == XQ::MINF ? 0 : 1; true_rel = c == 0 ? VR_EQ : VR_GT; if (!(rel & true_rel)) NK_FAIL("rel", "relation-false"); if (c != 0 && !(L.bounded && xcmp(ex.v, L.lo) < 0)) NK_FAIL("ovf", "overflow-claimed-in-range"); }
-    else if (rc == VC_PLUS_INFINITY) { int c = ex.v.k == XQ::PINF ? 0 : -1; true_rel = c == 0 ? VR_EQ : VR_LT; if (!(rel & true_rel)) NK_FAIL("rel", "relation-false"); if (c != 0 && !(L.bounded && xcmp(ex.v, L.hi) > 0)) NK_FAIL("ovf", "overflow-claimed-in-range"); }
-    else NK_FAIL("rel", "unrepresentable-normal-result");
-    ++c_unrep;
-    return true;
-  }
-  XQ st = dec(to);
-  if (st.nan()) NK_FAIL("nan", "stored-nan-on-defined");
-  if (rc == VC_MINUS_INFINITY && st.k != XQ::MINF) NK_FAIL("rel", "class-minus-infinity-but-stored-differs");
-  if (rc == VC_PLUS_INFINITY && st.k != XQ::PINF) NK_FAIL("rel", "class-plus-infinity-but-stored-differs");
-  int c = xcmp(ex.v, st);
-  true_rel = c < 0 ? VR_LT : c > 0 ? VR_GT : VR_EQ;
-  if (!(rel & true_rel)) {
-    // wrong side of a directed rounding is the more specific diagnosis
-    if (round_up(dir) && c > 0) NK_FAIL("dir", "round-up-below-exact");
-    if (round_down(dir) && c < 0) NK_FAIL("dir", "round-down-above-exact");
-    NK_FAIL("rel", "relation-false");
-  }
-  if (round_up(dir) && c > 0) NK_FAIL("dir", "round-up-below-exact");
-  if (round_down(dir) && c < 0) NK_FAIL("dir", "round-down-above-exact");
-  // overflow codes and infinities produced from finite exact results
-  bool ovf_code = ((unsigned) r & (unsigned) V_OVERFLOW) != 0;
-  if (ovf_code || (st.inf() && ex.v.fin())) {
-    if (!L.bounded) NK_FAIL("ovf", "overflow-in-unbounded-type");
-    bool below = xcmp(ex.v, L.lo) < 0, above = xcmp(ex.v, L.hi) > 0;
-    bool claims_neg = (rel == VR_LT && ovf_code) || st.k == XQ::MINF;   // V_LT_INF: exact < min ; stored -inf
-    bool claims_pos = (rel == VR_GT && ovf_code) || st.k == XQ::PINF;
-    if (ovf_code && rel == VR_LT && !(st.fin() && st.q == L.lo)) NK_FAIL("ovf", "lt-inf-but-stored-not-min");
-    if (ovf_code && rel == VR_GT && !(st.fin() && st.q == L.hi)) NK_FAIL("ovf", "gt-sup-but-stored-not-max");
-    if (claims_neg && !below) NK_FAIL("ovf", above ? "overflow-wrong-side" : "overflow-claimed-in-range");
-    if (claims_pos && !above) NK_FAIL("ovf", below ? "overflow-wrong-side" : "overflow-claimed-in-range");
-    ++c_ovf;
-  }
-  // strict relation requested: the library must commit to one of = < >
-  if (round_strict_relation(dir) && (round_up(dir) || round_down(dir)) && (!IsFlt<T>::value || P::check_fpu_inexact))
-    if (rel != VR_EQ && rel != VR_LT && rel != VR_GT) NK_FAIL("rel", "strict-not-exact");
-  // a stored finite value must lie inside the finite range of the destination
-  if (L.bounded && st.fin() && (st.q < L.lo || st.q > L.hi)) NK_FAIL("ovf", "stored-outside-finite-range");
-  ++(c == 0 ? c_exact : c_inexact);
-  return true;
-#undef NK_FAIL
-}
+struct Site { const char* op; std::string type; const char* pol; };
+
+// ---------------------------------------------------------------- non-template cores (numkernel.cc)
+// Run f in a forked child; false (and `why`) if the child died (sanitizer report, signal).
+bool survives(const std::function<void()>& f, std::string& why);
+// The oracle.  `stored` is the decoded destination (ignored when r carries V_UNREPRESENTABLE).  False if a violation was reported.
+bool verify_core(const KindInfo& K, const Site& s, Rounding_Dir dir, const char* cls, Result r, const XQ& stored, const Ex& ex, const Desc& desc);
+std::string res_class(const KindInfo& K, const Ex& ex, bool special_operand);
+
+// thunk signatures: perform one PPL call on operands taken from type-erased std::vector<N>s, decode the destination
+typedef Result (*BinRun)(const void* xs, size_t i, const void* ys, size_t j, Rounding_Dir d, XQ& stored);
+typedef Result (*UnRun)(const void* xs, size_t i, Rounding_Dir d, XQ& stored);
+typedef Result (*E2Run)(const void* xs, size_t i, unsigned e, Rounding_Dir d, XQ& stored);
+typedef Result (*FuRun)(const void* accs, size_t k, const void* xs, size_t i, const void* ys, size_t j, Rounding_Dir d, XQ& stored);
+typedef Result (*SpRun)(int which, Rounding_Dir d, XQ& stored);
+struct CmpOut { bool p[6]; int c; };
+typedef CmpOut (*CmpRun)(const void* xs, size_t i, const void* ys, size_t j, bool ordered);
+typedef int (*SgnRun)(const void* xs, size_t i);
+
+void run_binary_core(const KindInfo& K, const char* op, BinRun run, Ex (*exact)(const XQ&, const XQ&), const void* xs, const void* ys, bool try_not_needed);
+void run_unary_core(const KindInfo& K, const char* op, UnRun run, Ex (*exact)(const XQ&), const void* xs, bool try_not_needed);
+void run_2exp_core(const KindInfo& K, const char* op, E2Run run, Ex (*exact)(const XQ&, unsigned), const void* xs, const std::vector<unsigned>& exps);
+void run_fused_core(const KindInfo& K, const char* op, bool sub, FuRun run, const void* accs, const void* xs, const void* ys);
+void run_convert_core(const KindInfo& To, const KindInfo& From, BinRun assign, BinRun construct, const void* xs);   // the BinRun's ignore ys/j
+void run_specials_core(const KindInfo& K, SpRun run);
+void run_compare_core(const KindInfo& A, const KindInfo& B, CmpRun run, SgnRun sg, const void* xs, const void* ys);
 
 } // namespace nk
 #endif
